@@ -1,12 +1,14 @@
 package engines
 
 import (
+	"archive/tar"
 	"fmt"
 	"os"
+	"path"
 	"runtime"
-	"time"
 	"sort"
 	"strings"
+	"time"
 
 	"github.com/pojntfx/stfs/pkg/zzverif/vsync"
 	"stfsmc/ops"
@@ -140,6 +142,30 @@ func TripleScenarios() []Scenario {
 	return out
 }
 
+// C13Scenarios: the scenarios in which one caller removes or renames a directory while another creates below it, and
+// two callers creating the same or nested entries (judged for the well-formedness of the final namespace).
+func C13Scenarios() []Scenario {
+	out := []Scenario{}
+	for _, s := range QuickScenarios() {
+		if strings.HasPrefix(s.Name, "Q[") || strings.HasPrefix(s.Name, "S2-") || strings.HasPrefix(s.Name, "S5-") || strings.HasPrefix(s.Name, "S8-") || strings.HasPrefix(s.Name, "S9-") {
+			out = append(out, s)
+			continue
+		}
+		if strings.HasPrefix(s.Name, "P") {
+			// pairs of (a call that creates below /a) x (a call that removes, renames or replaces /a or creates below it)
+			var i, j int
+			if _, err := fmt.Sscanf(s.Name, "P%02d-%02d[", &i, &j); err == nil {
+				creator := func(k int) bool { return k == 0 || k == 1 || k == 10 || k == 8 }
+				mover := func(k int) bool { return k == 4 || k == 5 || k == 6 }
+				if (creator(i) && (mover(j) || creator(j))) || (mover(i) && creator(j)) {
+					out = append(out, s)
+				}
+			}
+		}
+	}
+	return out
+}
+
 func AllScenarios() []Scenario {
 	return append(append(Scenarios(), PairScenarios()...), TripleScenarios()...)
 }
@@ -224,10 +250,13 @@ type c11Exec struct {
 	TapeHash string
 	Rebuilt  string // "" = equal to the final tree, else description
 	Harness  string
+	// Malformed: live index entries that listing from the root does not reach, or whose parent is missing / not a directory
+	Malformed []string
 }
 
 type C11Job struct {
 	Scenario string `json:"scenario"`
+	Prop     string `json:"prop,omitempty"` // "" = C11; "C13" = judge the well-formedness of the final namespace only
 	Seams    bool   `json:"seams"`
 	Bound    int    `json:"bound"`
 	Prefix   []int  `json:"prefix"`
@@ -353,6 +382,7 @@ func runSchedule(env *Env, scn *Scenario, seams bool, prefix []int) *c11Exec {
 		vsync.Quiesce()
 		x.Tree = treeString(tree, true)
 		x.TapeHash = fileHash(st.Drive)
+		x.Malformed = malformed(st, tree)
 		rb, ierr, herr := Rebuild(env, st.Cfg, st.Drive)
 		if herr != nil {
 			return
@@ -573,6 +603,80 @@ func judgeC11(env *Env, scn *Scenario, x *c11Exec, sched string) []Violation {
 	return out
 }
 
+// malformed compares the live index rows with the tree reached by listing from the root (the C13 clauses that do not
+// depend on a history): every live entry is reached, and every entry other than the root has a live parent directory.
+func malformed(st *rig.Stack, tree []rig.Entry) []string {
+	rows, err := rig.DumpIndex(st.Index)
+	if err != nil {
+		return []string{"index-unreadable:" + err.Error()}
+	}
+	reach := map[string]rig.Entry{}
+	for _, e := range tree {
+		reach[e.Path] = e
+	}
+	live := map[string]rig.Row{}
+	for _, r := range rows {
+		if r.Deleted == 1 {
+			continue
+		}
+		p := rig.NormName(r.Name)
+		if r.Linkname != "" {
+			p = rig.NormName(r.Linkname)
+		}
+		live[p] = r
+	}
+	out := []string{}
+	for p := range live {
+		if p == "/" {
+			continue
+		}
+		par, ok := live[path.Dir(p)]
+		switch {
+		case !ok:
+			out = append(out, "orphan:"+p)
+		case par.Typeflag != int64(tar.TypeDir):
+			out = append(out, "parent-not-dir:"+p)
+		default:
+			if _, ok := reach[p]; !ok {
+				out = append(out, "unreachable:"+p)
+			}
+		}
+	}
+	for p, e := range reach {
+		if _, ok := live[p]; !ok {
+			out = append(out, "listed-not-live:"+p)
+		}
+		if strings.HasPrefix(e.Err, "open:") || strings.HasPrefix(e.Err, "readdir:") {
+			out = append(out, "listed-but-cannot-be-opened:"+p+" ("+e.Err+")")
+		}
+	}
+	sort.Strings(out)
+	return out
+}
+
+// judgeC13: whatever the interleaving, the namespace the calls leave behind is a well-formed tree.
+func judgeC13(scn *Scenario, x *c11Exec, sched string) []Violation {
+	if x.Hang != nil || len(x.Malformed) == 0 {
+		return nil // completion is C10/C11's business
+	}
+	calls, _ := flatCalls(scn)
+	parts := []string{}
+	for i, c := range x.Calls {
+		parts = append(parts, fmt.Sprintf("T%d:%s => %s [%d..%d]", c.Thread, calls[i], c.Obs, c.Start, c.End))
+	}
+	kinds := map[string]bool{}
+	for _, m := range x.Malformed {
+		kinds[strings.SplitN(m, ":", 2)[0]] = true
+	}
+	ks := []string{}
+	for k := range kinds {
+		ks = append(ks, k)
+	}
+	sort.Strings(ks)
+	return []Violation{{Prop: "C13", Class: fmt.Sprintf("C13|concurrent-callers|%s|%s", strings.Join(ks, ","), scn.Name),
+		Detail: fmt.Sprintf("scenario %s; schedule %s\n%s\nafter these calls: %s\nfinal tree:\n%s", scn.Name, sched, strings.Join(parts, "\n"), strings.Join(x.Malformed, "; "), x.Tree)}}
+}
+
 func schedString(steps []vsync.Step) string {
 	parts := []string{}
 	for _, s := range steps {
@@ -622,7 +726,12 @@ func RunC11(env *Env, job *C11Job) *C11Res {
 			choices[i] = s.Choice
 		}
 		sched := fmt.Sprintf("%v", trimZeros(choices))
-		viol := judgeC11(env, scn, x, sched)
+		var viol []Violation
+		if job.Prop == "C13" {
+			viol = judgeC13(scn, x, sched)
+		} else {
+			viol = judgeC11(env, scn, x, sched)
+		}
 		for _, v := range viol {
 			if v.Prop == "HARNESS" {
 				res.Harness = v.Class
@@ -749,5 +858,5 @@ func RaceBody(env *Env, name string, iterations int) (finished int, stuck int, e
 	return finished, stuck, nil
 }
 
-func runtimeGosched()                     { runtime.Gosched() }
+func runtimeGosched()                    { runtime.Gosched() }
 func timeAfter(sec int) <-chan time.Time { return time.After(time.Duration(sec) * time.Second) }
